@@ -227,7 +227,16 @@ where
         loop {
             let before = buf.len();
             match codec.decode(&mut buf) {
-                Ok(Some(m)) => items.push(item(Ok(m))),
+                Ok(Some(m)) => {
+                    items.push(item(Ok(m)));
+                    // every frame consumes at least its prefix; more items than bytes means the
+                    // decoder does not advance
+                    if items.len() > stream.len() + 8 {
+                        items.push("RUNAWAY".to_string());
+                        errored = true;
+                        break 'outer;
+                    }
+                }
                 Ok(None) => {
                     if buf.len() != before {
                         return "DECODE-NONE-CONSUMED-BYTES".to_string();
